@@ -229,13 +229,76 @@ func checkC03(e *Engine, r *Report) {
 		parent := e.objs(pkgTA, "Node.Parent", "node.Parent")
 		isNil := e.objs(pkgTA, "Node.IsNil", "node.IsNil")
 		loopOK := len(allCallsOfObj(t.fn, parent)) >= 2 && len(allCallsOfObj(t.fn, isNil)) >= 1
+		// the minimum: a loop-carried value P is replaced by the ancestor's capacity C exactly on the branch where C is the smaller one
 		minOK := false
 		AllInstrs(t.fn, func(in ssa.Instruction) {
-			if ifi, ok := in.(*ssa.If); ok {
-				if b, ok := ifi.Cond.(*ssa.BinOp); ok && b.Op == token.LSS {
+			ifi, ok := in.(*ssa.If)
+			if !ok {
+				return
+			}
+			b, ok := ifi.Cond.(*ssa.BinOp)
+			if !ok {
+				return
+			}
+			for _, c := range caps {
+				if !c.viaMethod {
+					continue
+				}
+				C := c.in.(ssa.Value)
+				var P *ssa.Phi
+				cSmallerOnTrue := false
+				switch {
+				case b.X == C && (b.Op == token.LSS || b.Op == token.LEQ):
+					P, _ = b.Y.(*ssa.Phi)
+					cSmallerOnTrue = true
+				case b.Y == C && (b.Op == token.GTR || b.Op == token.GEQ):
+					P, _ = b.X.(*ssa.Phi)
+					cSmallerOnTrue = true
+				}
+				if P == nil || !cSmallerOnTrue {
+					continue
+				}
+				// C flows back into P only together with P itself (P' = φ(P, C)), taken from the true branch
+				flows, clean := false, true
+				seen := map[ssa.Value]bool{}
+				var walk func(v ssa.Value, d int)
+				walk = func(v ssa.Value, d int) {
+					if seen[v] || d > 6 {
+						return
+					}
+					seen[v] = true
+					switch {
+					case v == C:
+						flows = true
+					case v == ssa.Value(P):
+					default:
+						if ph, ok := v.(*ssa.Phi); ok {
+							for _, ed := range ph.Edges {
+								walk(ed, d+1)
+							}
+						} else {
+							clean = false
+						}
+					}
+				}
+				for i, ed := range P.Edges {
+					// only the loop's back edges (predecessors dominated by the header)
+					if P.Block().Dominates(P.Block().Preds[i]) {
+						walk(ed, 0)
+					}
+				}
+				if flows && clean {
+					minOK = true
+				}
+			}
+		})
+		// or the built-in min()
+		AllInstrs(t.fn, func(in ssa.Instruction) {
+			if call, ok := in.(*ssa.Call); ok {
+				if bi, ok := call.Common().Value.(*ssa.Builtin); ok && bi.Name() == "min" {
 					for _, c := range caps {
-						if c.viaMethod && b.X == c.in.(ssa.Value) {
-							if _, isPhi := b.Y.(*ssa.Phi); isPhi {
+						for _, a := range call.Common().Args {
+							if c.viaMethod && a == c.in.(ssa.Value) {
 								minOK = true
 							}
 						}
